@@ -42,6 +42,13 @@ int
 br_ssl_server_reset(br_ssl_server_context *cc)
 {
 	br_ssl_engine_set_buffer(&cc->eng, NULL, 0, 0);
+
+	/*
+	 * Until the protocol version is negotiated, outgoing records (an
+	 * alert sent because the ClientHello is refused, or because of an
+	 * early closure) must still carry a valid version.
+	 */
+	cc->eng.version_out = cc->eng.version_min;
 	if (!br_ssl_engine_init_rand(&cc->eng)) {
 		return 0;
 	}
